@@ -3,7 +3,7 @@ import numpy as np
 
 from .. import casecheck
 from ..evaluator import ev_expr
-from ..pool import contract, metadata_problem, core_arrays, value_snapshot, value_changed
+from ..pool import contract, metadata_problem, core_arrays, value_snapshot, value_changed, caller_array
 from .c15 import leaf_values, psi_from_leaves, make_fn
 
 ASSUME = [
@@ -25,11 +25,12 @@ def replay(case):
     from scikit_tt.tensor_train import TT
     cfg, exp = case['cfg'], case['expect']
     task = cfg['task']
-    x = np.array(exp['x'], dtype=float)
+    x = caller_array(np.array(exp['x'], dtype=float), len(exp['x'][0]))          # read-only, Fortran-ordered for odd m
     y = np.array(exp['y'], dtype=float)
     yim = np.array(exp['yim'], dtype=float)
     if np.any(yim != 0):
         y = y + 1j * yim
+    y = caller_array(y, 0)
     m = x.shape[1]
     vals = leaf_values(exp['leaves'])
     psi = psi_from_leaves(vals)
